@@ -396,6 +396,7 @@ var vpTemplates = []string{
 	/* 27 */ "local \x01 = 0\nif k then local \x02 = 1 g = \x02 else local \x03 = 2 g = \x04 end\n",
 	/* 28 */ "local \x01 = 0\nlocal t = { f = function(\x02) return \x03 end, h = function(\x04) return \x05 end }\n",
 	/* 29 */ "local \x01 = 0\nwhile k do local \x02 = 1 g = \x02 end while k do local \x03 = 2 g = \x04 end\n",
+	/* 30 */ "local \x01 <const>, \x02 <const> = 1, 2\ng = \x02\nh = \x01\n",
 }
 
 // vpInstantiate fills the holes of template t with symbolic names; tag prefixes the variable names.
